@@ -38,8 +38,10 @@ func (cp *CachedPlanner) WithPlannerExecutor(e Planner) *CachedPlanner {
 }
 
 func (cp *CachedPlanner) hash(ctx *PlanningContext) hashKey {
-	// the operation type is part of the key: `{ x }` and `mutation { x }` print the same selection set
-	s := string(ctx.Operation.Operation) + " " + format.NewBufferedFormatter().FormatSelectionSet(ctx.Operation.SelectionSet)
+	// the operation type is part of the key: `{ x }` and `mutation { x }` print the same selection set;
+	// so is the operation name: root steps carry it in their query string and it must agree
+	// with the operationName sent along with them
+	s := string(ctx.Operation.Operation) + " " + ctx.Operation.Name + " " + format.NewBufferedFormatter().FormatSelectionSet(ctx.Operation.SelectionSet)
 	sha1 := sha1.Sum([]byte(s))
 	return sha1
 }
